@@ -475,3 +475,95 @@ Proof.
   exact (undelayed_iff c s p I Hc).
 Qed.
 End Reachable.
+
+(* ------------------------------------------------------------------ entries of a result with the trailing axis *)
+Lemma nth_flat_grid {X} (g : nat -> nat -> X) (dflt : X) d j : (j < d)%nat ->
+  forall n a e, (a <= e < a + n)%nat ->
+  nth ((e - a) * d + j) (flat_map (fun e => map (g e) (seq 0 d)) (seq a n)) dflt = g e j.
+Proof.
+  intros Hj. induction n as [|n IH]; intros a e He; [lia|].
+  cbn [seq flat_map].
+  destruct (Nat.eq_dec e a) as [->|Hne].
+  - rewrite Nat.sub_diag. cbn [Nat.mul Nat.add]. rewrite app_nth1 by (rewrite map_length, seq_length; exact Hj).
+    apply nth_map_seq0. exact Hj.
+  - rewrite app_nth2 by (rewrite map_length, seq_length; nia). rewrite map_length, seq_length.
+    replace ((e - a) * d + j - d)%nat with ((e - S a) * d + j)%nat by nia.
+    apply IH. lia.
+Qed.
+
+(* entry (e, j) of current_at on a delayed record: the synapse e's value for its j-th delay *)
+Corollary current_at_entry (c : cfgR) (s : synR) (p : pastR) d sel : Inv RN c s p -> cfg_ok c -> N (spk RN s) <> 1%nat ->
+  exists vals, current_at RN c s (cshape RN c ++ [d]) sel = SOk (cshape RN c ++ [d], vals) /\
+    length vals = (nel (cshape RN c) * d)%nat /\
+    forall e j, (e < nel (cshape RN c))%nat -> (j < d)%nat ->
+      nth (e * d + j) vals 0 = read_one (cur_sel c s) (cdelay RN c) (ctol RN c) (ccur_ob RN c) e (nth (e * d + j) sel 0).
+Proof.
+  intros I Hc Hn. eexists. split; [apply (current_at_delayed_D c s p I Hc d sel Hn)|]. split.
+  - generalize (nel (cshape RN c)). intros n.
+    assert (G : forall a, length (flat_map (fun e => map (fun j => read_one (cur_sel c s) (cdelay RN c) (ctol RN c) (ccur_ob RN c) e
+                                       (nth (e * d + j) sel 0)) (seq 0 d)) (seq a n)) = (n * d)%nat).
+    { induction n as [|n IH]; intros a; cbn [seq flat_map]; [reflexivity|]. rewrite app_length, map_length, seq_length, IH. lia. }
+    apply G.
+  - intros e j He Hj.
+    pose proof (nth_flat_grid (fun e j => read_one (cur_sel c s) (cdelay RN c) (ctol RN c) (ccur_ob RN c) e (nth (e * d + j) sel 0))
+                  0 d j Hj (nel (cshape RN c)) 0%nat e ltac:(lia)) as H.
+    rewrite Nat.sub_0_r in H. exact H.
+Qed.
+
+(* ------------------------------------------------------------------ the double exponential interpolation is exact as well *)
+Theorem double_exp_between_steps_exact c p k e since : ckind RN c = KDoubleExp -> Forall (entry_ok RN c) p ->
+  (e < nel (cshape RN c))%nat ->
+  pos_ago c p k e * Rexp (- since / ctau RN c) - neg_ago c p k e * Rexp (- since / ctr RN c) =
+  isum (fun j => cQ RN c / (ctau RN c - ctr RN c) *
+                 (Rexp (- (INR j * cdt RN c + since) / ctau RN c) - Rexp (- (INR j * cdt RN c + since) / ctr RN c)))
+       (skipn k (train p e)).
+Proof.
+  intros Ek Hp He. unfold pos_ago, neg_ago. pose proof (Forall_skipn _ p k Hp) as Hq.
+  rewrite (pos_closed_form c (skipn k p) e Ek Hq He), (neg_closed_form c (skipn k p) e Ek Hq He), train_skipn.
+  rewrite (Rmult_comm (isum _ _)), (Rmult_comm (isum _ _) (Rexp (- since / ctr RN c))), <- !isum_scale, <- isum_minus.
+  apply isum_ext. intros j. unfold resp_exp.
+  replace (- (INR j * cdt RN c + since) / ctau RN c) with (- since / ctau RN c + - (INR j * cdt RN c) / ctau RN c)
+    by (unfold Rdiv; ring).
+  replace (- (INR j * cdt RN c + since) / ctr RN c) with (- since / ctr RN c + - (INR j * cdt RN c) / ctr RN c)
+    by (unfold Rdiv; ring).
+  rewrite !exp_plus. ring.
+Qed.
+
+(* ------------------------------------------------------------------ the double exponential's component readers *)
+Section Components.
+Variable c : cfgR.
+Variable s : synR.
+Variable p : pastR.
+Hypothesis I : Inv RN c s p.
+Hypothesis Hc : cfg_ok c.
+
+Theorem pos_neg_at_delayed_D d sel : N (spk RN s) <> 1%nat ->
+  pos_current_at RN c s (cshape RN c ++ [d]) sel =
+    SOk (cshape RN c ++ [d],
+         flat_map (fun e => map (fun j => read_one (fun e b => sel_elem RN (cur RN s) (cdt RN c) (ctol RN c) (interp_decay RN (ctau RN c)) e b)
+                                                   (cdelay RN c) (ctol RN c) (ccur_ob RN c) e (nth (e * d + j) sel 0)) (seq 0 d))
+                  (seq 0 (nel (cshape RN c)))) /\
+  neg_current_at RN c s (cshape RN c ++ [d]) sel =
+    SOk (cshape RN c ++ [d],
+         flat_map (fun e => map (fun j => read_one (fun e b => sel_elem RN (neg RN s) (cdt RN c) (ctol RN c) (interp_decay RN (ctr RN c)) e b)
+                                                   (cdelay RN c) (ctol RN c) (ccur_ob RN c) e (nth (e * d + j) sel 0)) (seq 0 d))
+                  (seq 0 (nel (cshape RN c)))).
+Proof.
+  intros Hn. pose proof (Hdt c Hc). pose proof (Htol c Hc). pose proof (Hdelay c s p I Hc) as Hd.
+  unfold pos_current_at, neg_current_at, synparam_at.
+  rewrite (st_of _ _ (inv_wc _ _ _ _ I)), (st_of _ _ (inv_wn _ _ _ _ I)). split.
+  - apply param_at_delayed_D; rewrite ?(inv_Nc _ _ _ _ I); auto; lra.
+  - apply param_at_delayed_D; rewrite ?(inv_Nn _ _ _ _ I); auto; lra.
+Qed.
+
+Theorem pos_neg_read_at_delay e b k : 0 <= b <= cdelay RN c -> Rabs (IZR k * cdt RN c - b) <= ctol RN c ->
+  sel_elem RN (cur RN s) (cdt RN c) (ctol RN c) (interp_decay RN (ctau RN c)) e b = pos_ago c p (Z.to_nat k) e /\
+  sel_elem RN (neg RN s) (cdt RN c) (ctol RN c) (interp_decay RN (ctr RN c)) e b = neg_ago c p (Z.to_nat k) e.
+Proof.
+  intros Hb Hk. pose proof (grid_index_range c s p I Hc b k Hb Hk) as Hr. unfold pos_ago, neg_ago.
+  rewrite (sel_elem_h _ _ _ _ _ e b (inv_wc _ _ _ _ I)), (sel_elem_h _ _ _ _ _ e b (inv_wn _ _ _ _ I)).
+  rewrite !(sel_h_on_grid _ _ (Hdt c Hc) (Htol c Hc) _ _ b k Hk).
+  rewrite (at_cur c s p I), (at_neg c s p I) by lia.
+  replace (1 + k - 1)%Z with k by lia. split; reflexivity.
+Qed.
+End Components.
